@@ -19,6 +19,10 @@ func c17(c *Check) {
 	c.Assume = []string{"the system contracts emit the caller (msg.sender) in the Delegator / Voter event field", "guards and bindings were selected by source position at freeze time (xlint/picks/C17.txt)"}
 	c.Rule("C17/native-failure-fails-the-module-call", "CallEVMWithData (the path on which a received packet's call data reaches the staking / gov contracts): an error of the post-transaction hooks — a failing native action — cannot reach a success return without the res.Failed() test, so the callback's EVM state is dropped with it", 3)
 	evmHookRule(c, "C17/native-failure-fails-the-module-call")
+	c.Rule("C17/module-call-runs-on-the-cache-context", "the callback of a received packet (which may reach the staking / gov contracts) runs on the cache context that is dropped when it fails: a failing native action leaves no contract-visible state behind on the cross-chain path either", 1)
+	for _, cs := range c.Calls(c.F(xibcK+"Keeper.RecvPacket"), "keeper.(Keeper).CallPacket") {
+		c.ArgIs(cs, "C17/module-call-runs-on-the-cache-context", "onRecvPacket.ctx", msM, 1, "{CC}#0")
+	}
 	c.Rule("C17/hooks", "frozen table: both adapters dispatch a log to a handler only under bytes.Equal(log.Address, <system contract address>) and return the handler's error", 4)
 	c.Rule("C17/handlers", "frozen table: every handler parses its own event, builds the message only from that event's fields (delegator / voter from the event, bond denom from the staking keeper) and returns ExecuteMsg's result; parse and encoding errors are returned", 24)
 	c.Rule("C17/execute", "frozen table: ExecuteMsg validates the message, requires a routed handler and returns the handler's error", 3)
